@@ -26,6 +26,8 @@ def get_literal_expr(obj: object) -> Optional[str]:
 
     try:
         name = BUILTIN_TO_NAME[obj]
+        if NAME_TO_BUILTIN[name] is not obj:  # dict lookup is by equality: Decimal(1) == True, but it is not `True`
+            raise KeyError
     except (KeyError, TypeError):
         try:
             return _get_complex_literal_expr(obj)
@@ -58,6 +60,8 @@ def _get_complex_literal_expr(obj: object) -> Optional[str]:  # noqa: PLR0911
         return _parenthesize("[]", obj)
 
     if type(obj) is tuple:
+        if len(obj) == 1:
+            return "(" + _provide_lit_expr(obj[0]) + ",)"
         return _parenthesize("()", obj)
 
     if type(obj) is set:
@@ -71,11 +75,11 @@ def _get_complex_literal_expr(obj: object) -> Optional[str]:  # noqa: PLR0911
         return "frozenset()"
 
     if type(obj) is slice:
-        parts = (obj.start, obj.step, obj.stop)
+        parts = (obj.start, obj.stop, obj.step)
         return "slice" + _parenthesize("()", parts)
 
     if type(obj) is range:
-        parts = (obj.start, obj.step, obj.stop)
+        parts = (obj.start, obj.stop, obj.step)
         return "range" + _parenthesize("()", parts)
 
     if type(obj) is dict:
